@@ -40,6 +40,8 @@ type env struct {
 
 func newEnv(t vkit.TB) *env {
 	w := vkit.NewWorld(vkit.WorldConfig{})
+	// a server that supports the wrapper-based registration flow
+	w.Opts = append(w.Opts, nodeenrollment.WithRegistrationWrapper(vkit.NewAead("registration")))
 	e := &env{w: w, rig: vkit.NewRig(w, vkit.RigConfig{}), node: vkit.NewActor("honest")}
 	if err := w.Enroll(e.node); err != nil {
 		t.Fatalf("enroll: %v", err)
@@ -53,6 +55,8 @@ func panicKey(stack string) string {
 	switch {
 	case strings.Contains(stack, "CombineFromNextProtos"):
 		return "C14/panic/short-chunk"
+	case strings.Contains(stack, "DecryptWrappedRegistrationInfo"):
+		return "C14/panic/wrapped-registration-info"
 	case strings.Contains(stack, "aead.(*Wrapper).Decrypt"):
 		return "C14/panic/short-ciphertext"
 	default:
@@ -198,7 +202,7 @@ func TestProp_HostileInputs(t *testing.T) {
 			e = newEnv(t)
 		}
 		e.used++
-		kind := rapid.SampledFrom([]string{"alpn-list", "alpn-list", "alpn-list", "mutated-request", "hostile-rewrapped-blob", "raw-bytes", "oversized-request", "client-alert", "tcp-reset"}).Draw(t, "inputKind")
+		kind := rapid.SampledFrom([]string{"alpn-list", "alpn-list", "alpn-list", "mutated-request", "hostile-rewrapped-blob", "hostile-wrapped-blob", "raw-bytes", "oversized-request", "client-alert", "tcp-reset"}).Draw(t, "inputKind")
 		switch kind {
 		case "alpn-list":
 			n := rapid.IntRange(1, 8).Draw(t, "entries")
@@ -270,6 +274,32 @@ func TestProp_HostileInputs(t *testing.T) {
 			e.sendALPN(vkit.FetchProtos(req))
 			e.judge(t, "hostile-rewrapped-blob", func() any {
 				return map[string]any{"blob": blobKind, "blob_hex": fmt.Sprintf("%x", req.RewrappedWrappingRegistrationFlowInfo)}
+			}, false)
+		case "hostile-wrapped-blob":
+			// well-signed fetch request whose wrapped registration info (inside the signed
+			// bundle, so the attacker signs it with its own key) is attacker controlled
+			a := vkit.NewActor("attacker")
+			info := a.Info()
+			blobKind := rapid.SampledFrom([]string{"short-ciphertext", "random", "empty-envelope", "sealed-by-foreign-wrapper"}).Draw(t, "blob")
+			switch blobKind {
+			case "short-ciphertext":
+				n := rapid.IntRange(0, 27).Draw(t, "n")
+				info.WrappedRegistrationInfo = append([]byte{0x0a, byte(n)}, rnd(n)...)
+			case "random":
+				info.WrappedRegistrationInfo = rapid.SliceOfN(rapid.Byte(), 1, 80).Draw(t, "bytes")
+			case "empty-envelope":
+				info.WrappedRegistrationInfo = []byte{0x1a, 0x00}
+			default:
+				bi, _ := vkit.NewAead("foreign").Encrypt(e.w.Ctx, []byte("registration info"))
+				info.WrappedRegistrationInfo, _ = proto.Marshal(bi)
+			}
+			req := vkit.Sign(info, a.CertPriv)
+			rec.Case("hostile-wrapped-blob/"+blobKind, fmt.Sprint(blobKind, len(info.WrappedRegistrationInfo), string(info.WrappedRegistrationInfo)), true, func() any {
+				return map[string]any{"blob": blobKind, "blob_hex": fmt.Sprintf("%x", info.WrappedRegistrationInfo)}
+			})
+			e.sendALPN(vkit.FetchProtos(req))
+			e.judge(t, "hostile-wrapped-blob", func() any {
+				return map[string]any{"blob": blobKind, "blob_hex": fmt.Sprintf("%x", info.WrappedRegistrationInfo)}
 			}, false)
 		case "raw-bytes":
 			b := rapid.SliceOfN(rapid.Byte(), 0, 300).Draw(t, "bytes")
